@@ -10,7 +10,11 @@
   L  the linearisation function selected by byte 24 [6:0].
 
   Everything is exact arithmetic over core `Rat`.  The transcendental functions are
-  parameters (`Fns`): nothing is claimed about them except which one is applied.
+  parameters (`Fns`): nothing is claimed about them except which one is applied — and, for the
+  cube root (0Bh, `cube⁻¹(x)`), that it is the REAL cube root: unlike ln / log / sqrt it has a
+  value for every real argument, negative ones included (∛(−8) = −2), and it is odd
+  (`Fns.RealCubeRoot`).  A reader that reports a domain error for a negative argument of the
+  cube root does not compute `L[…]`.
   Core only.
 -/
 import PyIpmi.Base.Outcome
@@ -78,8 +82,10 @@ def Lin.code : Lin → Nat
   | .linear => 0 | .ln => 1 | .log10 => 2 | .log2 => 3 | .exp => 4 | .exp10 => 5 | .exp2 => 6
   | .inv => 7 | .sqr => 8 | .cube => 9 | .sqrt => 10 | .cubert => 11
 
-/-- The transcendental functions: parameters of the specification.  Each may fail (domain
-errors of the host's `math` library). -/
+/-- The transcendental functions: parameters of the specification.  Each may fail where the
+mathematical function has no real value (ln / log10 / log2 of x ≤ 0, sqrt of x < 0) or where the
+host's number type cannot hold the result (overflow of e^x, 10^x, 2^x).  `cubert` is the real
+cube root, see `Fns.RealCubeRoot`. -/
 structure Fns where
   ln : Rat → Outcome Rat
   log10 : Rat → Outcome Rat
@@ -89,6 +95,19 @@ structure Fns where
   exp2 : Rat → Outcome Rat
   sqrt : Rat → Outcome Rat
   cubert : Rat → Outcome Rat
+
+/-- Sign change of a result (an error stays that error). -/
+def negO : Outcome Rat → Outcome Rat
+  | .ok y => .ok (-y)
+  | e => e
+
+/-- What the specification says about `cube⁻¹(x)` beyond its name: the cube root of table 43-1
+is the real cube root, so it is
+* `defined` for every argument — in particular a negative argument is not a domain error —, and
+* `odd`: ∛(−x) = −∛x (which fixes its values on the negative reals from those on the positive). -/
+structure Fns.RealCubeRoot (F : Fns) : Prop where
+  defined : ∀ x : Rat, ∃ y, F.cubert x = .ok y
+  odd : ∀ x : Rat, F.cubert (-x) = negO (F.cubert x)
 
 /-- `L[x]`.  The algebraic functions are exact; `1/x` is undefined at 0 (reported as the
 host's division error). -/
